@@ -493,5 +493,12 @@ def run(ctx):
         c14.rule_new(fc, F, prefix="C05")
     except Unrecognised as e:
         ctx.unrecognised("C05." + e.rule.split(".", 1)[-1], e.msg, e.fn, e.line)
+    # "each carrying the token's ':weight', or 1 when omitted": the weight parser's shape (C10's rule, re-evaluated here)
+    try:
+        from rules import c10
+        from sa.report import PrefixCtx
+        c10.rule_weight(PrefixCtx(ctx, "C10", "C05", allowed=["weight-language"]), TM)
+    except Unrecognised as e:
+        ctx.unrecognised("C05.weight-language", e.msg, e.fn, e.line)
     ctx.assume("RankRange::inclusive(a, b) yields the ranks from a to b inclusive in ace-to-deuce order (C13)")
     ctx.assume("the weight parser returns the tail's value or 1 (C10); regex::Regex::is_match implements the regex semantics")
